@@ -33,6 +33,16 @@ var solvers = []solverSpec{
 	{"z3-4.8.12", func(t int, f string) []string { return []string{"/usr/bin/z3", fmt.Sprintf("-T:%d", t), f} }},
 }
 
+// retrySolvers: the portfolio for the escalation round.
+var retrySolvers = append(append([]solverSpec{}, solvers...),
+	solverSpec{"z3-5.1.0/seed7", func(t int, f string) []string {
+		return []string{"z3-new", fmt.Sprintf("-T:%d", t), "smt.random_seed=7", "sat.random_seed=7", f}
+	}},
+	solverSpec{"z3-5.1.0/seed11", func(t int, f string) []string {
+		return []string{"z3-new", fmt.Sprintf("-T:%d", t), "smt.random_seed=11", "sat.random_seed=11", f}
+	}},
+)
+
 // script builds the SMT-LIB text of an obligation.
 func (u *Unit) script(o *Oblig, withModel []*Term) string {
 	tb := u.m.tb
@@ -298,6 +308,42 @@ func dischargeAll(units []*Unit, dir string, timeoutS int, par int, which []solv
 			defer wg.Done()
 			defer func() { <-sem }()
 			j.u.discharge(j.o, j.text, dir, timeoutS, which)
+		}(j)
+	}
+	wg.Wait()
+	// Escalation: an obligation no solver decided inside the first time limit is
+	// tried again, few at a time, with four times the limit, every installed solver
+	// and extra seeds. Solver timing depends on machine load; only an obligation
+	// that stays undecided here is reported. (Refuted obligations — `sat` — and
+	// the must-fail canaries are not retried.)
+	var again []job
+	for _, j := range jobs {
+		if j.o.result == "unknown" && !j.o.expectFail && !strings.Contains(j.o.label, "must-fail") {
+			again = append(again, j)
+		}
+	}
+	if len(again) == 0 || timeoutS <= 0 {
+		return
+	}
+	par2 := par / 3
+	if par2 < 2 {
+		par2 = 2
+	}
+	sem2 := make(chan struct{}, par2)
+	for _, j := range again {
+		wg.Add(1)
+		sem2 <- struct{}{}
+		go func(j job) {
+			defer wg.Done()
+			defer func() { <-sem2 }()
+			first := j.o.output
+			j.o.timeS = 0
+			j.u.discharge(j.o, j.text, dir, timeoutS*4, retrySolvers)
+			if j.o.result == "unknown" {
+				j.o.output = first + j.o.output
+			} else {
+				j.o.solver += " (retry)"
+			}
 		}(j)
 	}
 	wg.Wait()
